@@ -324,7 +324,15 @@ def fuelOf (σ : State) : Nat := totalCode σ + 2 * σ.tasks.length + 4
 inductive Event
   | tick (t : Tid)
   | resume (t : Tid)
+  | callSoon (p : Pid) (cb : Nat)   -- `p.call_soon(cb)` from code outside any task (RPC handler, harness), between two callbacks
 deriving DecidableEq, Repr, Inhabited
+
+/-- the context of code that runs between two callbacks: empty at top level, the context of the code that called
+`execute()` inside a nested loop -/
+def loopStack (σ : State) : List Pid :=
+  match σ.callStack with
+  | [] => []
+  | b :: _ => (σ.tasks[b]?.map (·.stack)).getD []
 
 def step (σ : State) : Event → State
   | .tick t =>
@@ -338,6 +346,13 @@ def step (σ : State) : Event → State
     | some T =>
       if T.parked then { σ with tasks := σ.tasks.set t { T with parked := false } }
       else { σ with err := some .notReady }
+  | .callSoon p cb =>
+    if σ.err.isSome then σ else
+    match σ.scn.cbs[cb]? with
+    | none => { σ with err := some .badRef }
+    | some code =>
+      if p < σ.nextPid then { σ with tasks := σ.tasks ++ [{ stack := loopStack σ, code := cbOps p code }] }
+      else { σ with err := some .badRef }
 
 def runEvents (σ : State) (es : List Event) : State := es.foldl step σ
 
@@ -351,12 +366,9 @@ def initTop : State → List Nat → State
 
 def init (scn : Scenario) (top : List Nat) : State := initTop { scn := scn } top
 
-/-- what harness code running between two callbacks observes: nothing at top level, the context of the code that
-called `execute()` inside a nested loop -/
-def loopCurrent (σ : State) : Option Pid :=
-  match σ.callStack with
-  | [] => none
-  | b :: _ => (σ.tasks[b]?.map (fun B => current B.stack)).getD none
+/-- what harness code running between two callbacks observes: nothing at top level, the process whose step called
+`execute()` inside a nested loop -/
+def loopCurrent (σ : State) : Option Pid := current (loopStack σ)
 
 def stepEndsOk : List Step → Bool
   | [] => false
